@@ -773,7 +773,7 @@ class SimLoop(base_events.BaseEventLoop):
             await tasks.sleep(0)
         return srv
 
-    def _connect_pair(self, host, port, cproto, owner, source_port=None):
+    def _connect_pair(self, host, port, cproto, owner, source_port=None, source_host=None):
         net = self.net
         srv = net.listeners.get(port)
         if srv is None or srv.closed:
@@ -785,6 +785,9 @@ class SimLoop(base_events.BaseEventLoop):
             cport = net.next_port
             net.next_port += 1
         chost = "127.0.0.1" if ":" not in (host or "") else "::1"
+        if source_host is not None:
+            # a peer with more than one address (or two hosts working together): this connection comes from another one
+            chost = source_host
         ct = SimTransport(self, net, owner, f"c{cport}", (chost, cport), (host, port), net.window)
         st = SimTransport(self, net, "server", f"s{cport}", (srv.host, port), (chost, cport), net.window)
         ct.peer, st.peer = st, ct
